@@ -11,6 +11,17 @@ Two readings that literal `==` cannot express are handled explicitly (see LEVEL_
 * the reader is given the environment of the original problem; because `ProtobufReader` builds objects/actions in the
   global environment, each case installs its fresh environment as the global one.  A sample of cases is additionally
   read into a *non-global* environment (own mechanism string).
+
+Don't-care classes (counted, never judged; see the counters `dontcare:*`):
+* ValidationResult.trace / .calculated_interpreted_functions: the repository's own test of this round trip
+  (test_protobuf_io.py::test_validation_result) documents them as "not part of the protobuf representation";
+* `metrics == {}` read back as None (proto3 maps have no presence; both mean "no engine metrics");
+* a problem whose *stored* trajectory constraint is a constant (`Problem.add_trajectory_constraint` keeps
+  `constraint.simplify()`, e.g. `Always(false)` -> `false`): the same public method refuses that shape, the problem cannot
+  be rebuilt through the model API at all;
+* an action whose effects the public add_*effect API refuses (assembled by a compiler around the checks).
+Everything else the message format cannot carry (ValidationResult.reason / inapplicable_action / metric_evaluations, the
+class of an empty plan) *is* observable through == and is reported, one mechanism string per root cause.
 """
 import re
 import traceback
@@ -47,6 +58,8 @@ ASSUMPTIONS = [
     "the library's == and kind are the intended notion of 'equal' (they are the statement)",
     "CompilerResult equality is read extensionally for its callable; None and [] log messages are identified there",
     "a writer exception means 'the writer does not accept the object'",
+    "ValidationResult.trace and .calculated_interpreted_functions are outside the protobuf representation (as the repository's own round-trip test states); {} and None metrics are identified",
+    "problems whose stored trajectory constraints are constants (not re-addable through Problem.add_trajectory_constraint) are degenerate inputs",
 ]
 SHARD_TIMEOUT = {"quick": 600, "thorough": 3000}
 N_CASES = {"quick": 360, "thorough": 6400}
